@@ -24,6 +24,7 @@ func checkC16(p *Prog, r *Report) {
 	c16Skip(p, r)
 	c16HarvestSites(p, r)
 	c16Switches(p, r)
+	c16FixedWindow(p, r)
 }
 
 // C16.R9 — "with fixed dates sowing and harvest happen on the dates of the
@@ -626,5 +627,51 @@ func c16HarvestSites(p *Prog, r *Report) {
 	}
 	if n < 3 {
 		r.Ob("harvest-sites", "-", false, fmt.Sprintf("%d stores of an automatic harvest date found in the crop routine, 3 confirmed", n))
+	}
+}
+
+// C16.R10 — "with fixed dates sowing happens on the date of the rotation file":
+// for a table row without a sowing window (first window field 0) the reader
+// takes the sowing date from the rotation file and derives the window from it:
+// window = [that date − 1, that date].  The window must be derived from the
+// date converted in this very branch (a window derived from the slot's previous
+// content is [−1, 0]: "window already passed" for every later test).
+func c16FixedWindow(p *Prog, r *Report) {
+	r.Rule("C16.R10", "fixed sowing date under automatic sowing: in the table-row arm without a sowing window the sowing date of the entry is the converted rotation-file date and the window is [that date − 1, that date], derived from the value stored in that arm", 3)
+	x := walked(p, "hermes.Input")
+	if x == nil {
+		return
+	}
+	// the arm: stores to SAAT whose value is the second result of the date conversion, inside the automan table loop
+	var sow *Event
+	for _, e := range x.Events {
+		if e.Kind == "assign" && e.Root == "GlobalVarsMain.SAAT" && len(e.Idx) == 1 && len(e.Loops) >= 2 {
+			if t := e.Val.single(); t != nil && len(t.M) == 1 && t.M[0].A.Kind != "cell" && !e.Val.IsZero() && e.HasGuard(func(c *Cond) bool { return strings.Contains(c.Key(), "GlobalVarsMain.AUTOMAN") && !strings.HasPrefix(c.Key(), "!") }) {
+				sow = e
+			}
+		}
+	}
+	if sow == nil {
+		r.Ob("fixed-date", "-", false, "no store of the converted rotation-file sowing date in the automatic-sowing table arm")
+		return
+	}
+	r.Ob("fixed-date", p.Pos(sow.Pos), true, fmt.Sprintf("SAAT[%s] = %s in the arm without a sowing window", sow.Idx[0], clip(sow.Val.String(), 60)))
+	for _, w := range []struct {
+		root string
+		off  int64
+	}{{"GlobalVarsMain.SAAT1", -1}, {"GlobalVarsMain.SAAT2", 0}} {
+		ok := false
+		det := "no store of the window bound in that arm"
+		pos := "-"
+		for _, e := range x.Events {
+			if e.Kind != "assign" || e.Root != w.root || len(e.Idx) != 1 || guardKeys(e.Guards) != guardKeys(sow.Guards) {
+				continue
+			}
+			pos = p.Pos(e.Pos)
+			want := sow.Val.Add(PInt(w.off))
+			ok = e.Val.Equal(want) && e.Seq > sow.Seq && e.Idx[0].Equal(sow.Idx[0])
+			det = fmt.Sprintf("%s[%s] = %s (must be the date just converted %+d, stored after it, same entry)", shortRoot(w.root), e.Idx[0], clip(e.Val.String(), 70), w.off)
+		}
+		r.Ob("fixed-window:"+shortRoot(w.root), pos, ok, det)
 	}
 }
